@@ -117,7 +117,7 @@ def check(ctx):
                 'distinct (behaviour, step, observer arguments)')
     ctx.assume('TLC model checker', 'projection harness/mps.py:dense_from_mps (explicit contraction of psi._B, psi._S, psi.form)',
                'specification modules MPSState, Dense, Exact', 'float64 is exact on Gaussian dyadic rationals of this size')
-    ctx.exhaustive = not quick
+    ctx.exhaustive = False   # instances are a seeded sample of the case catalogue; operations on them are enumerated exhaustively
     t0 = time.time()
     acts = {'convert', 'setB', 'observe', 'canonical'}
     # wide: every constructor route, one state-changing step
